@@ -64,10 +64,14 @@ static const struct dispatch_data_format_type_s *fmt_of(const char *s){
 
 // one region per '|'-separated part
 static dispatch_data_t build_regions(char *spec){
-  dispatch_data_t d=dispatch_data_empty; char *save=NULL;
+  dispatch_data_t d=dispatch_data_empty; char *save=NULL; size_t idx=0;
   for(char *part=strtok_r(spec,"|",&save); part; part=strtok_r(NULL,"|",&save)){
-    static unsigned char buf[1<<16]; size_t n=parsehex(part,buf); if(!n) continue;
-    dispatch_data_t leaf=dispatch_data_create(buf,n,NULL,DISPATCH_DATA_DESTRUCTOR_DEFAULT);
+    static unsigned char pbuf[(1<<16)+8]; unsigned char *buf=pbuf+3; size_t n=parsehex(part,buf); if(!n) continue;
+    dispatch_data_t leaf;
+    if((n+idx++)&1){   // every other region is a sub-range of a larger buffer (its record starts at a non-zero offset of its leaf): same bytes
+      memset(pbuf,0xEE,3); buf[n]=0xDD; buf[n+1]=0xDD; dispatch_data_t big=dispatch_data_create(pbuf,n+5,NULL,DISPATCH_DATA_DESTRUCTOR_DEFAULT);
+      leaf=dispatch_data_create_subrange(big,3,n); dispatch_release(big); }
+    else leaf=dispatch_data_create(buf,n,NULL,DISPATCH_DATA_DESTRUCTOR_DEFAULT);
     dispatch_data_t c=dispatch_data_create_concat(d,leaf); dispatch_release(leaf); dispatch_release(d); d=c; }
   return d; }
 
